@@ -566,7 +566,9 @@ func callSSA(i *interpreter, caller *frame, callpos token.Pos, fn *ssa.Function,
 		if strings.HasSuffix(name, "/internal/conv.UnsafeBytesToStr") {
 			return conv(i, types.Typ[types.String], types.NewSlice(types.Typ[types.Uint8]), args[0])
 		}
-		if fn.Blocks == nil && fn.Pkg != nil {
+		if fn.Pkg != nil {
+			// always wait for the package build to finish: another worker may be building it
+			// right now and a half-built function must never be executed (sync.Once inside)
 			fn.Pkg.Build()
 		}
 		if fn.Blocks == nil {
